@@ -160,6 +160,13 @@ type Runner struct {
 
 	// StopFaultsAtReopen clears the fault plan when a reopen step starts.
 	StopFaultsAtReopen bool
+	// CutAfterFault: once an injected fault has fired and one more
+	// persistence round has completed successfully, skip to the program's
+	// final step (a reopen): damage that only shows when the files are
+	// closed must not get the chance to be papered over by a later full
+	// compaction.
+	CutAfterFault bool
+	cutBase       int64
 
 	// KeepOpen: leave everything open after Run (debugging tools).
 	KeepOpen bool
@@ -235,6 +242,25 @@ func (r *Runner) Run() *Result {
 		r.afterStep(st)
 		if len(r.Res.Violations) > 0 || r.Res.Inconclusive != "" {
 			break
+		}
+		if r.CutAfterFault && r.E.FS != nil && r.E.FS.FiredCount() > 0 && i < len(r.P.Steps)-1 {
+			c := r.Res.Counters
+			okRounds := c["rounds.append"] + c["rounds.partial"] + c["rounds.full"]
+			if r.cutBase == 0 {
+				r.cutBase = okRounds + 1
+			} else if okRounds >= r.cutBase {
+				last := r.P.Steps[len(r.P.Steps)-1]
+				if last.K == "reopen" {
+					last = Step{K: "reopen", A: "early"} // no drain: no idle compaction
+					r.step = len(r.P.Steps) - 1
+					r.Res.Steps++
+					r.cnt("cut_after_fault", 1)
+					if r.doStep(last) && len(r.Res.Violations) == 0 && r.Res.Inconclusive == "" {
+						r.afterStep(last)
+					}
+				}
+				break
+			}
 		}
 	}
 	if len(r.Res.Violations) == 0 && r.Res.Inconclusive == "" && !r.KeepOpen {
